@@ -180,6 +180,18 @@ def rule_shape(chk, head2, test2):
     outer = ctx.func("_validation", "Field.forTypes")
     t2 = " ".join(unparse(s) for s in outer.node.body)
     okft = okft and "type(None)" in t2 and "fixedClasses.append(k)" in t2 and "tuple(fixedClasses)" in t2
+    rets = [n for n in iter_own_nodes(outer.node) if isinstance(n, ast.Return)]
+    okwire = len(rets) == 1 and isinstance(rets[0].value, ast.Call) and any(k.arg == "extraValidator" and isinstance(k.value, ast.Name) and k.value.id == ft.name for k in rets[0].value.keywords)
+    if not okwire and len(rets) == 1 and isinstance(rets[0].value, ast.Call) and len(rets[0].value.args) >= 4:
+        okwire = isinstance(rets[0].value.args[3], ast.Name) and rets[0].value.args[3].id == ft.name
+    chk.req(okwire, "C14.shape", "Field.forTypes:type-check-is-always-installed", chk.where(outer),
+            good="the Field is built with extraValidator=<the isinstance check> (which then calls the caller's validator)",
+            fail="the isinstance type check is not (always) the Field's validator: with a caller-supplied extra validator wrong-typed values are accepted")
+    fvo = ctx.func("_validation", "Field.forValue")
+    rets = [n for n in iter_own_nodes(fvo.node) if isinstance(n, ast.Return)]
+    okwire = len(rets) == 1 and isinstance(rets[0].value, ast.Call) and ((len(rets[0].value.args) >= 4 and isinstance(rets[0].value.args[3], ast.Name) and rets[0].value.args[3].id == fval.name)
+                                                                            or any(k.arg == "extraValidator" and isinstance(k.value, ast.Name) and k.value.id == fval.name for k in rets[0].value.keywords))
+    chk.req(okwire, "C14.shape", "Field.forValue:fixed-value-check-is-installed", chk.where(fvo), good="the Field is built with the fixed-value validator", fail="forValue does not install its fixed-value validator")
     chk.req(okft, "C14.shape", "Field.forTypes:isinstance-of-exactly-the-given-classes", chk.where(ft), good="isinstance(value, <given classes, None -> NoneType>)", fail="forTypes' validator is not an isinstance test against exactly the given classes")
 
 
@@ -385,3 +397,6 @@ def run(chk):
     rule_emit(chk)
     rule_json(chk)
     rule_order_and_restore(chk)
+    from . import c13
+    c13.rule_serializer_flow(chk)  # a typed action whose serializers are dropped on the way is never validated
+    c13.rule_wiring(chk)
